@@ -74,6 +74,10 @@ _sanity()
 # False to exclude texts containing non-space whitespace from the TRIM value check.
 DEMAND_TRIM_KEEPS_CONTROL_WHITESPACE = True
 
+# delivery-channel differential (core.Env): of every 6 evaluations that bind variables, one is repeated with the
+# values handed in by the cell/range listeners and one with the values returned by custom functions; outcomes must agree
+CHANNELS = 6
+
 BOUNDS = {
     'quick': 'every string of length <= 3 over a 12-character alphabet (1 885) + %d structured strings of '
              'length <= 60; counts -2..len+5, MID starts 1..len+2; string/count passing modes var+literal, '
